@@ -83,8 +83,9 @@ class _Table:
 
 
 class RefDecoder:
-    def __init__(self, strict_graphs: bool = True):
+    def __init__(self, strict_graphs: bool = True, max_table: int | None = None):
         self.strict = strict_graphs
+        self.max_table = MAX_TABLE if max_table is None else max_table
         self.res = Result()
         self.opts: dict | None = None
         self.N = self.P = self.D = None
@@ -118,7 +119,7 @@ class RefDecoder:
                 self._bad("bad-version", str(o["version"]))
             for key in ("max_name_table_size", "max_prefix_table_size",
                         "max_datatype_table_size"):
-                if o[key] > MAX_TABLE:
+                if o[key] > self.max_table:
                     self._bad("table-too-large", f"{key}={o[key]}")
             if o["max_name_table_size"] < MIN_NAMES:
                 self._bad("name-table-too-small", str(o["max_name_table_size"]))
@@ -182,6 +183,9 @@ class RefDecoder:
             q = pid
             if pid == self.lp:
                 self._audit("missed-zero-prefix-id", {"id": pid})
+            elif self.lp == 0 and self.P.slots.get(pid) == "":
+                # no prefix referenced yet: id 0 already denotes the empty prefix
+                self._audit("missed-zero-prefix-id", {"id": pid, "at": "stream-start-empty-prefix"})
         if q == 0:
             prefix = ""
             c["iri-no-prefix"] += 1
@@ -360,9 +364,12 @@ class RefDecoder:
             pass  # stream of empty frames only: nothing to say
 
 
-def decode(frames: list[dict], strict_graphs: bool = True) -> Result:
-    """Decode frames; the first violation stops decoding and is stored in the result."""
-    d = RefDecoder(strict_graphs=strict_graphs)
+def decode(frames: list[dict], strict_graphs: bool = True, max_table: int | None = None) -> Result:
+    """Decode frames; the first violation stops decoding and is stored in the result.
+
+    max_table: reader-side cap on declared table sizes (default 4096, what a conformant reader supports); lifted when the
+    question is the internal consistency of a stream written with a larger preset."""
+    d = RefDecoder(strict_graphs=strict_graphs, max_table=max_table)
     try:
         for fr in frames:
             d.feed(fr)
